@@ -130,7 +130,7 @@ def run(tier, seed, replay=None):
                 raise Infra("Rump model check failed on %s (rc=%s, %s)\n%s" % (cfgname, mc.rc, mc.violated, mc.out[-3000:]))
             mcs.append(mc)
         nproc = 12
-        per = 25 if thorough else 5
+        per = 60 if thorough else 5
         if replay:
             allcases = [[json.load(open(replay))["replay"]["case"]]]
             nproc = 1
